@@ -3440,7 +3440,7 @@ class HasTraits(CHasTraits, metaclass=MetaHasTraits):
         if pattern[-1] == "*":
             pattern = "%s%s%s" % (
                 pattern[:-1],
-                self.__class__.__prefix__,
+                getattr(self.__class__, "__prefix__", ""),
                 name,
             )
 
